@@ -1,14 +1,22 @@
 """C19 — BADA-3 fuel-burn integration keeps mass, thrust and fuel flow consistent.
 
-R1  protocol conformance: every subscript / attribute access on
+R1  protocol conformance: every subscript / attribute / getattr access on
     `self.aircraft_parameters` is supported by Bada3AircraftParameters (declared
-    field, method, or __getitem__ for subscripts).
+    field, method, or __getitem__ for subscripts).  A key that is looked up in a
+    module-level table nobody changes (rating name -> parameter name) stands for
+    every entry of the table: each must be a declared parameter.
 
 R2-R4 are decided on the *resolved value* of a result: every local replaced by
 the expression defining it at that point (a re-bound local and a chain of
 single-assignment locals give the same tree), plain module-level helper
-functions of the BADA package looked through, call arguments bound to the
-callee's parameters (positional or keyword).
+functions of the BADA package and `self.` helper methods the manual has no
+equation for looked through, call arguments bound to the callee's parameters
+(positional or keyword).  When a helper is opened for a literal argument
+(`rating='cruise'`), tests on literals are decided and only the arm taken is
+followed (if / elif, guard clauses, `match`, conditional expressions, `'k' in
+TABLE`), look-ups of a literal key in a module-level table nobody changes are
+replaced by the entry, getattr(x, 'name') is x.name, and a `try` whose handlers
+all end in `raise` is its body.
 
 R2  thrust shape: the returned thrust is np.where(T < 0, D, T) (or the `>= 0`
     mirror) where T - the same expression on both sides - is the total-energy
@@ -18,7 +26,14 @@ R2  thrust shape: the returned thrust is np.where(T < 0, D, T) (or the `>= 0`
     compared in feet, the low-altitude rating otherwise; total-energy thrust is
     evaluated for drag(cd(cl(mass, rho, v_tas)), rho, v_tas), mass, v_tas,
     rocd, acceleration with rho from the ISA pressure at altitude and the
-    temperature; all ratings at (altitude, v_tas, temperature).  np.clip /
+    temperature; all ratings at (altitude, v_tas, temperature).  A rating is
+    recognised by name when it is the engine model's method of that name (R6
+    compares the method with the manual), otherwise by value: engine-model calls
+    are opened (one definition for all engine classes, literal arguments decide
+    its dispatch) and the result must equal the manual's equation for that
+    rating (3.7-8: Ctcr x max climb thrust, 3.7-9/10: Ctdes,high/low x max climb
+    thrust) as an exact rational function, with every max-climb-thrust call in it
+    at (altitude, v_tas, temperature).  np.clip /
     np.maximum with the descent thrust as a lower bound is a violation.  A guard
     clause that returns the limited thrust before the substitution is accepted
     only under a condition that says no element of that thrust is negative
@@ -37,6 +52,17 @@ R5  MTOW clamp: in the fuel-dependent initial-mass iterations mass[0] is only
     reserve term.
 R7  assign_parameters_fromdict assigns every entry it is given (no value-based
     skipping).
+R9  flight state handed on as received: in every entry point of the iteration (a public method of Bada3FuelBurnModel
+    that receives temperature, altitude, v_tas, rocd, acceleration, in_cruise, groundspeed and segment_distance), each
+    evaluation of calculate_specific_ground_range - reached directly or through helpers of the package, with the
+    arguments carried in locals, tuples, NamedTuples / dataclasses (positional or keyword construction, field reads,
+    _replace, methods of the record), dicts, * / ** expansion - binds to each of the seven state parameters the entry
+    point's own parameter of that name, unmodified (shape-preserving coercions aside); a parameter that arrives under
+    another role (ground speed as true airspeed) is a violation.  The mass it is evaluated for is a mass vector computed in
+    the function; every update_mass_vector[_backward] call receives the specific ground range evaluated for the mass
+    vector it updates and the entry point's segment_distance.  Decided by abstract interpretation over the CFG (values:
+    parameter as received / record of values / result of call sites / specific ground range with its bound arguments;
+    joins keep what all paths agree on).  Floors: four entry points, each with an evaluation and an update.
 R8  a formula is a function of its arguments: a method of the model classes that can return something an earlier call
     left on the object (`self.x` written outside __init__, also through getattr / __dict__) must do so under a key,
     compared with the stored key, that determines by content every argument the computed answer reads; a key built
@@ -51,7 +77,8 @@ R6  equation conformance (T-ALG): the value every BADA-3 formula method returns 
     out).  `different` is taken from (1) only when both sides use the same symbols, else from (2); a rational code form
     against an equation with clip / maximum is a definite difference.  The non-ISA correction (3.7-4..7) is compared
     the same way with clip / maximum as opaque functions identified by the value of their arguments.  Of several
-    returns, the one computed in the call is compared (stored answers are R8's).
+    returns, the one computed in the call is compared (stored answers are R8's; a return that cannot be reached - after
+    an unconditional return, or under a test on literals that is false - does not count).
     Engine selection: `create_engine_model` is followed once per engine type
     with `aircraft_parameters.engine_type` bound to that string (partial
     evaluation over the CFG: if/elif, guard clauses, `match` with literal /
@@ -77,6 +104,30 @@ BASE = 'BADA/fuel_burn_base.py'
 OBJ = 'self.aircraft_parameters'
 
 
+def _possible_keys(prog, module, fn, e, bound, depth=0):
+    """the strings a key expression can be, when that is a closed set: a literal, an entry of a module-level table nobody
+    changes (looked up by anything), a conditional expression of those, a local bound once to one of those; else None"""
+    if isinstance(e, ast.Constant):
+        return [e.value] if isinstance(e.value, str) else None
+    if isinstance(e, ast.IfExp):
+        a, b = (_possible_keys(prog, module, fn, x, bound, depth) for x in (e.body, e.orelse))
+        return None if a is None or b is None else a + b
+    if isinstance(e, ast.Name) and depth < 4:
+        v = single_def_value(fn, e.id)
+        return _possible_keys(prog, module, fn, v, bound, depth + 1) if v is not None else None
+    t = None
+    if isinstance(e, ast.Subscript) and isinstance(e.value, ast.Name) and e.value.id not in bound:
+        t = _literal_table(prog, module, e.value.id)
+    elif isinstance(e, ast.Call) and isinstance(e.func, ast.Attribute) and e.func.attr == 'get' and len(e.args) == 1 \
+            and isinstance(e.func.value, ast.Name) and e.func.value.id not in bound:
+        t = _literal_table(prog, module, e.func.value.id)
+    if t is not None:
+        vals = t.values if isinstance(t, ast.Dict) else t.elts
+        if vals and all(isinstance(v, ast.Constant) and isinstance(v.value, str) for v in vals):
+            return [v.value for v in vals]
+    return None
+
+
 def rule_protocol(ctx):
     prog = ctx.prog
     pm = prog.module(PARAMS)
@@ -90,23 +141,34 @@ def rule_protocol(ctx):
     n = 0
     for m in mods:
         for fi in m.functions.values():
+            bound = _bound_names(fi.node)
             for x in walk_no_nested(fi.node):
                 if isinstance(x, ast.Subscript) and norm(x.value) == OBJ:
                     n += 1
-                    key = x.slice.value if isinstance(x.slice, ast.Constant) else None
-                    ok = has_getitem and (key is None or key in fields)
-                    ctx.ob('C19-R1', fi, f"{OBJ}[{key!r}]", ok,
+                    keys = _possible_keys(prog, m, fi.node, x.slice, bound)
+                    bad = [k_ for k_ in (keys or []) if k_ not in fields]
+                    ok = has_getitem and not bad
+                    ctx.ob('C19-R1', fi, f"{OBJ}[{norm(x.slice)[:50]}]", ok,
                            'item access supported and names a declared parameter' if ok else
                            ("Bada3AircraftParameters is a dataclass without __getitem__: the model raises "
                             "TypeError on the library's own parameter object" if not has_getitem else
-                            f'`{key}` is not a declared parameter'), line=x.lineno)
+                            f'`{bad[0]}` is not a declared parameter'), line=x.lineno)
                 elif isinstance(x, ast.Attribute) and norm(x.value) == OBJ:
                     n += 1
                     ok = x.attr in fields or x.attr in methods
                     ctx.ob('C19-R1', fi, f'{OBJ}.{x.attr}', ok,
                            'declared parameter' if ok else f'`{x.attr}` is not declared on Bada3AircraftParameters',
                            line=x.lineno, nontrivial=False)
-    ctx.floor('C19-R1', n, 30, 'accesses of the parameter object')
+                elif isinstance(x, ast.Call) and isinstance(x.func, ast.Name) and x.func.id == 'getattr' and 'getattr' not in bound \
+                        and len(x.args) >= 2 and norm(x.args[0]) == OBJ:
+                    n += 1
+                    keys = _possible_keys(prog, m, fi.node, x.args[1], bound)
+                    bad = [k_ for k_ in (keys or []) if k_ not in fields and k_ not in methods]
+                    ok = not bad or len(x.args) == 3
+                    ctx.ob('C19-R1', fi, f'getattr({OBJ}, {norm(x.args[1])[:50]})', ok,
+                           'declared parameter' if ok else f'`{bad[0]}` is not declared on Bada3AircraftParameters',
+                           line=x.lineno, nontrivial=False)
+    ctx.floor('C19-R1', n, 20, 'accesses of the parameter object')
     gi = pc.find_method('__getitem__')
     if gi is not None:
         r = returned_expr(gi.node)
@@ -179,17 +241,215 @@ def bind_args(call: ast.Call, fn, drop_self: bool):
     return out
 
 
+def _bound_names(fn):
+    """every name the function binds (parameters, assignment / loop / with / except / import targets, nested defs)"""
+    a = fn.args
+    out = {x.arg for x in a.posonlyargs + a.args + a.kwonlyargs}
+    out |= {x.arg for x in (a.vararg, a.kwarg) if x is not None}
+    for x in walk_no_nested(fn):
+        if isinstance(x, ast.Name) and isinstance(x.ctx, (ast.Store, ast.Del)):
+            out.add(x.id)
+        elif isinstance(x, (ast.FunctionDef, ast.AsyncFunctionDef, ast.ClassDef)) and x is not fn:
+            out.add(x.name)
+        elif isinstance(x, ast.ExceptHandler) and x.name:
+            out.add(x.name)
+        elif isinstance(x, (ast.Import, ast.ImportFrom)):
+            out |= {(al.asname or al.name).split('.')[0] for al in x.names}
+    return out
+
+
+_READ_ONLY_METHODS = ('get', 'keys', 'values', 'items', 'copy', 'index', 'count')
+
+
+def _literal_table(prog, module, name):
+    """the display a module-level name is bound to, when it is a table nobody changes: bound once to a dict / tuple / list
+    display, and every other mention of the name in the program's modules that can see it is a read (subscript load,
+    read-only method, membership test, iteration, len)"""
+    cache = prog.__dict__.setdefault('_c19_tables', {})
+    r = prog.resolve_name(module, name)
+    if not (isinstance(r, tuple) and r[0] == 'const'):
+        return None
+    home, nm = r[1], r[2]
+    key = (home.relpath, nm)
+    if key in cache:
+        return cache[key]
+    cache[key] = None
+    v = home.constants.get(nm)
+    if not isinstance(v, (ast.Dict, ast.Tuple, ast.List)):
+        return None
+    if isinstance(v, ast.Dict) and not all(isinstance(k, ast.Constant) for k in v.keys):
+        return None
+    ndefs = 0
+    for m in prog.src_modules():
+        if m is not home and not any(d.endswith('.' + nm) or d == nm for d in m.imports.values()):
+            continue
+        local = nm if m is home else next((a for a, d in m.imports.items() if d.endswith('.' + nm)), None)
+        if local is None:
+            continue
+        parents = {}
+        for x in ast.walk(m.tree):
+            for ch in ast.iter_child_nodes(x):
+                parents[id(ch)] = x
+        for x in ast.walk(m.tree):
+            if not (isinstance(x, ast.Name) and x.id == local):
+                continue
+            if isinstance(x.ctx, ast.Store):
+                ndefs += 1
+                continue
+            if isinstance(x.ctx, ast.Del):
+                return None
+            par = parents.get(id(x))
+            if isinstance(par, ast.Subscript) and par.value is x and isinstance(par.ctx, ast.Load):
+                continue
+            if isinstance(par, ast.Attribute) and par.value is x and par.attr in _READ_ONLY_METHODS:
+                continue
+            if isinstance(par, ast.Compare) and x in par.comparators and all(isinstance(o, (ast.In, ast.NotIn)) for o in par.ops):
+                continue
+            if isinstance(par, (ast.For, ast.comprehension)) and par.iter is x:
+                continue
+            if isinstance(par, ast.Call) and isinstance(par.func, ast.Name) and par.func.id in ('len', 'sorted', 'list', 'tuple', 'set', 'frozenset', 'dict'):
+                continue
+            return None
+    if ndefs != 1:
+        return None
+    cache[key] = v
+    return v
+
+
+def fold_tables(prog, module, e, bound=()):
+    """`e` with look-ups of a literal key in a module-level table nobody changes replaced by the entry: TABLE['k'],
+    TABLE.get('k'[, d]), TUPLE[2], 'k' in TABLE; `a if <test on literals> else b` by the arm taken; getattr(x, 'name') by x.name.  A key
+    the table does not have is left as written (the look-up raises / defaults)."""
+    class T(ast.NodeTransformer):
+        def visit_Compare(self, n):
+            n = self.generic_visit(n)
+            if len(n.ops) == 1 and isinstance(n.ops[0], (ast.In, ast.NotIn)) and isinstance(n.left, ast.Constant) \
+                    and isinstance(n.comparators[0], ast.Name) and n.comparators[0].id not in bound:
+                t = _literal_table(prog, module, n.comparators[0].id)
+                members = None if t is None else (t.keys if isinstance(t, ast.Dict) else t.elts)
+                if members is not None and all(isinstance(x, ast.Constant) for x in members):
+                    try:
+                        r = any(x.value == n.left.value and type(x.value) is type(n.left.value) for x in members)
+                    except Exception:
+                        return n
+                    return ast.copy_location(ast.Constant(r == isinstance(n.ops[0], ast.In)), n)
+            return n
+
+        def visit_IfExp(self, n):
+            n = self.generic_visit(n)
+            t = const_truth(n.test)
+            return n if t is None else (n.body if t else n.orelse)
+
+        def visit_Subscript(self, n):
+            n = self.generic_visit(n)
+            if isinstance(n.ctx, ast.Load) and isinstance(n.value, ast.Name) and n.value.id not in bound and isinstance(n.slice, ast.Constant):
+                t = _literal_table(prog, module, n.value.id)
+                k = n.slice.value
+                if isinstance(t, ast.Dict):
+                    hits = [v for kk, v in zip(t.keys, t.values) if type(kk.value) is type(k) and kk.value == k]
+                    if hits:
+                        return _clone(hits[-1])
+                elif t is not None and isinstance(k, int) and not isinstance(k, bool) and -len(t.elts) <= k < len(t.elts) \
+                        and not any(isinstance(x, ast.Starred) for x in t.elts):
+                    return _clone(t.elts[k])
+            return n
+
+        def visit_Call(self, n):
+            n = self.generic_visit(n)
+            f = n.func
+            if isinstance(f, ast.Name) and f.id == 'getattr' and 'getattr' not in bound and len(n.args) == 2 and not n.keywords \
+                    and isinstance(n.args[1], ast.Constant) and isinstance(n.args[1].value, str) and n.args[1].value.isidentifier():
+                return ast.copy_location(ast.Attribute(value=n.args[0], attr=n.args[1].value, ctx=ast.Load()), n)
+            if isinstance(f, ast.Attribute) and f.attr == 'get' and isinstance(f.value, ast.Name) and f.value.id not in bound \
+                    and 1 <= len(n.args) <= 2 and not n.keywords and isinstance(n.args[0], ast.Constant):
+                t = _literal_table(prog, module, f.value.id)
+                if isinstance(t, ast.Dict):
+                    k = n.args[0].value
+                    hits = [v for kk, v in zip(t.keys, t.values) if type(kk.value) is type(k) and kk.value == k]
+                    if hits:
+                        return _clone(hits[-1])
+                    return _clone(n.args[1]) if len(n.args) == 2 else ast.copy_location(ast.Constant(None), n)
+            return n
+
+    return T().visit(e)
+
+
+def const_truth(e):
+    """truth value of a test made of literals only (comparisons, membership in a literal display, and / or / not), else None"""
+    try:
+        if isinstance(e, ast.Constant):
+            return bool(e.value)
+        if isinstance(e, ast.UnaryOp) and isinstance(e.op, ast.Not):
+            t = const_truth(e.operand)
+            return None if t is None else not t
+        if isinstance(e, ast.BoolOp):
+            ts = [const_truth(v) for v in e.values]
+            if isinstance(e.op, ast.And):
+                return False if any(t is False for t in ts) else (None if any(t is None for t in ts) else True)
+            return True if any(t is True for t in ts) else (None if any(t is None for t in ts) else False)
+        if isinstance(e, ast.Compare):
+            vals = [ast.literal_eval(x) for x in [e.left] + list(e.comparators)]
+            for op, a, b in zip(e.ops, vals, vals[1:]):
+                if isinstance(op, ast.Eq):
+                    r = a == b
+                elif isinstance(op, ast.NotEq):
+                    r = a != b
+                elif isinstance(op, ast.In):
+                    r = a in b
+                elif isinstance(op, ast.NotIn):
+                    r = a not in b
+                elif isinstance(op, (ast.Is, ast.IsNot)) and (a is None or b is None or isinstance(a, bool) or isinstance(b, bool)):
+                    r = (a is b) == isinstance(op, ast.Is)
+                else:
+                    return None
+                if not r:
+                    return False
+            return True
+    except (ValueError, TypeError, SyntaxError, MemoryError, RecursionError):
+        return None
+    return None
+
+
+def _match_arm(s: ast.Match, subject):
+    """the body `match` runs for a literal subject (value / or / wildcard patterns without guards), else None"""
+    if not isinstance(subject, ast.Constant):
+        return None
+
+    def hit(p):
+        if isinstance(p, ast.MatchValue):
+            return (p.value.value == subject.value and type(p.value.value) is type(subject.value)) if isinstance(p.value, ast.Constant) else None
+        if isinstance(p, ast.MatchSingleton):
+            return p.value is subject.value
+        if isinstance(p, ast.MatchOr):
+            rs = [hit(x) for x in p.patterns]
+            return True if any(r is True for r in rs) else (None if any(r is None for r in rs) else False)
+        if isinstance(p, ast.MatchAs) and p.pattern is None and p.name is None:
+            return True
+        return None
+    for c in s.cases:
+        r = hit(c.pattern)
+        if r is None or c.guard is not None:
+            return None
+        if r:
+            return c.body
+    return []
+
+
 class Flow:
     """Resolved values of a function whose body is straight-line (assignments, expression statements, one return).
     Names bound under a branch or a loop, or by an unpacking that is not element-wise, stay opaque (they resolve to
     themselves)."""
 
-    def __init__(self, prog, fi, inline=True, _depth=0, methods=False, keep=()):
+    def __init__(self, prog, fi, inline=True, _depth=0, methods=False, keep=(), consts=None):
         """methods: also open `self.m(...)` calls of methods whose dispatch is certain (see _inlinable); keep: method
-        names that stay calls (they are symbols of the reference equations)"""
+        names that stay calls (they are symbols of the reference equations); consts: parameters known to be a literal
+        at the call being opened (`rating='cruise'`) - tests on them are decided and only the arm taken is followed"""
         self.prog, self.fi, self.inline, self.depth = prog, fi, inline, _depth
         self.methods, self.keep = methods, frozenset(keep)
-        self.env: dict[str, ast.expr] = {}
+        self.env: dict[str, ast.expr] = dict(consts or {})
+        self.bound = _bound_names(fi.node)
+        self.done = False            # a return / raise on the one path followed has been reached
+        self.raises = False          # ... and it was a raise
         self.stores: list[tuple[ast.expr, ast.expr, ast.stmt]] = []   # (target, resolved value, stmt)
         self.ret = None
         self.returns = 0
@@ -202,6 +462,7 @@ class Flow:
 
     def resolve(self, e):
         e = _Subst(self.env).visit(_clone(e))
+        e = fold_tables(self.prog, self.fi.module, e, self.bound)
         return self._inline_calls(e) if self.inline else e
 
     def _bind(self, t, v):
@@ -220,6 +481,30 @@ class Flow:
             self.stores.append((t, v, None))
 
     def _stmt(self, s):
+        if self.done:
+            return
+        if isinstance(s, ast.If):
+            # a test on known literals (a parameter bound to a constant at the call being opened): only the arm taken
+            t = const_truth(self.resolve(s.test))
+            if t is not None:
+                for x in (s.body if t else s.orelse):
+                    self._stmt(x)
+                return
+        if isinstance(s, ast.Match):
+            arm = _match_arm(s, self.resolve(s.subject))
+            if arm is not None:
+                for x in arm:
+                    self._stmt(x)
+                return
+        if isinstance(s, ast.Try) and not s.finalbody and s.handlers \
+                and all(h.body and isinstance(h.body[-1], ast.Raise) for h in s.handlers):
+            # every handler ends in `raise`: whenever the function goes on (or returns), the body ran to its end
+            for x in list(s.body) + list(s.orelse):
+                self._stmt(x)
+            return
+        if isinstance(s, ast.Raise):
+            self.done = self.raises = True
+            return
         if isinstance(s, ast.Assign):
             v = self.resolve(s.value)
             for t in s.targets:
@@ -245,6 +530,7 @@ class Flow:
             self.returns += 1
             if self.ret is None and s.value is not None:
                 self.ret = self.resolve(s.value)
+            self.done = True
         elif isinstance(s, (ast.Expr, ast.Pass, ast.Import, ast.ImportFrom, ast.Global, ast.Nonlocal, ast.Assert)):
             pass
         elif isinstance(s, (ast.FunctionDef, ast.AsyncFunctionDef, ast.ClassDef)):
@@ -300,9 +586,12 @@ class Flow:
                 f = flow._inlinable(c)
                 if f is None:
                     return c
-                sub = Flow(flow.prog, f, True, flow.depth + 1, flow.methods, flow.keep)
                 b = bind_args(c, f.node, f.cls is not None)
-                if b is None or not sub.straight or sub.returns != 1 or sub.ret is None or sub.stores or sub.early:
+                if b is None:
+                    return c
+                lit = {k: v for k, v in b.items() if isinstance(v, ast.Constant)}
+                sub = Flow(flow.prog, f, True, flow.depth + 1, flow.methods, flow.keep, consts=lit)
+                if not sub.straight or sub.returns != 1 or sub.ret is None or sub.stores or sub.early or sub.raises:
                     return c
                 return _Subst(b).visit(_clone(sub.ret))
 
@@ -379,6 +668,90 @@ def _state_args(prog, fi, c, expect: dict):
 RHO = 'calculate_air_density(pressure_at_altitude_isa_bada4(altitude), temperature)'
 
 
+STATE = {'altitude': 'altitude', 'v_tas': 'v_tas', 'temperature': 'temperature'}
+_RATING_WHAT = {'calculate_max_climb_thrust': 'maximum climb thrust (3.7-1..7)',
+                'calculate_max_cruise_thrust': 'maximum cruise thrust (3.7-8)',
+                'calculate_descent_thrust_high': 'high-altitude descent thrust (3.7-9)',
+                'calculate_descent_thrust_low': 'low-altitude descent thrust (3.7-10)'}
+
+
+def manual_methods():
+    """names of the methods the BADA-3 manual has an equation or a symbol for (they stay calls when helpers are opened)"""
+    return {qn.split('.')[-1] for qn in BADA3} | set(BADA3_CALLS) | {'calculate_thrust', 'calculate_specific_ground_range'}
+
+
+def _engine_classes(prog):
+    m = prog.module(MODEL)
+    return [m.classes[n] for n in ENGINE_MODELS.values() if n in m.classes]
+
+
+def open_engine_calls(prog, fi, e):
+    """`e` with every call `self.engine_model.m(...)` replaced by what m returns for these arguments, when all engine
+    classes find one definition of m and it is straight-line (literal arguments decide its tests); the methods the manual
+    has a symbol for (maximum climb thrust, eta) stay calls.  -> (expression, [names of methods that could not be opened])"""
+    closed = []
+
+    class T(ast.NodeTransformer):
+        def visit_Call(self, c):
+            c = self.generic_visit(c)
+            f = c.func
+            if not (isinstance(f, ast.Attribute) and norm(f.value) == ENGINE_SLOT) or f.attr in BADA3_CALLS:
+                return c
+            defs = {k.find_method(f.attr) for k in _engine_classes(prog)}
+            if len(defs) != 1 or None in defs:
+                closed.append(f.attr)
+                return c
+            d = next(iter(defs))
+            b = bind_args(c, d.node, True)
+            if b is None or d.node.decorator_list:
+                closed.append(f.attr)
+                return c
+            lit = {k: v for k, v in b.items() if isinstance(v, ast.Constant)}
+            sub = Flow(prog, d, methods=True, keep=set(BADA3_CALLS), consts=lit)
+            if not sub.straight or sub.returns != 1 or sub.ret is None or sub.stores or sub.early or sub.raises:
+                closed.append(f.attr)
+                return c
+            return _Subst(b).visit(_clone(sub.ret))
+
+    return T().visit(_clone(e)), closed
+
+
+def _rating(ctx, ct, e, method):
+    """Is `e` (an expression of calculate_thrust, locals resolved) the engine model's rating `method` at (altitude, v_tas,
+    temperature)?  -> (kind, why): 'ok'; 'state' (that rating, evaluated at another state); 'other' (another quantity);
+    'undecided'.  By name when it is the call of that method (R6 compares the method with the manual); otherwise by value:
+    engine-model calls are opened and the result compared, as an exact rational function of the parameters and the
+    manual's symbols, with the manual's equation for the rating."""
+    prog = ctx.prog
+    what = _RATING_WHAT.get(method, method)
+    if _is_call_of(e, method):
+        if not call_name(e).startswith(ENGINE_SLOT + '.'):
+            return 'other', f'`{norm(e)[:60]}` is not the engine model\'s rating'
+        oka, how = _state_args(prog, ct, e, STATE)
+        return ('ok', 'engine model, this state') if oka else ('state', how)
+    value, closed = open_engine_calls(prog, ct, e)
+    for c in calls_in(value):
+        if any(call_name(c) == n or call_name(c).endswith('.' + n) for n in BADA3_CALLS):
+            oka, how = _state_args(prog, ct, c, STATE)
+            if not oka:
+                return 'state', f'`{norm(c)[:80]}`: {how}'
+    m = prog.module(MODEL)
+    consts = module_constants(prog.module('units.py'))
+    consts.update(module_constants(m, consts))
+    ref = BADA3_CALLS[method] if method in BADA3_CALLS else BADA3[f'Bada3EngineModel.{method}'][0]
+    try:
+        code = code_normal_form(ct.node, value, consts, param_objs=(OBJ,), call_map=BADA3_CALLS)
+        want = ref_normal_form(ref, consts, {})
+    except AlgebraError as ex:
+        return 'undecided', f'cannot normalise `{norm(value)[:60]}`: {ex}'
+    v, why = compare(code, want)
+    if v == 'equal':
+        return 'ok', f'equal to the {what} `{ref}`'
+    if v == 'different' or (isinstance(e, ast.Call) and any(_is_call_of(e, n) for n in _RATING_WHAT)):
+        return 'other', f'`{norm(e)[:70]}` has the value `{str(code)[:80]}`, not the {what} `{ref}`'
+    return 'undecided', (f'`{norm(e)[:60]}`: ' + (f'{sorted(set(closed))} cannot be opened; ' if closed else '') + why)
+
+
 def _none_negative(cond, v):
     """`cond` says that no element of `v` is negative: not any(v < 0), all(v >= 0), min(v) >= 0 (np. functions or methods)"""
     neg = False
@@ -412,7 +785,7 @@ def rule_thrust(ctx):
     prog = ctx.prog
     m = prog.module(MODEL)
     ct = m.func('Bada3FuelBurnModel.calculate_thrust')
-    fl = Flow(prog, ct)
+    fl = Flow(prog, ct, methods=True, keep=manual_methods())
     R = fl.ret
     if not fl.straight or fl.returns != 1 or R is None:
         ctx.undecided('C19-R2', ct, 'thrust', 'calculate_thrust is not a straight-line function with one return (guard clauses aside)')
@@ -522,25 +895,30 @@ def rule_thrust(ctx):
     # maximum thrust: cruise rating in cruise, climb rating otherwise
     w = _where3(MX)
     oksel, cr, cl = False, None, None
+    why_sel = 'it is not selected by the cruise flag between two ratings'
     if w is not None:
         cnd, wa, wb = w
         if norm(cnd) == 'in_cruise':
             cr, cl = wa, wb
         elif norm(cnd) in ('~in_cruise', 'np.logical_not(in_cruise)', 'not in_cruise', 'np.invert(in_cruise)'):
             cr, cl = wb, wa
-        oksel = cr is not None and _is_call_of(cr, 'calculate_max_cruise_thrust') \
-            and _is_call_of(cl, 'calculate_max_climb_thrust')
+        if cr is not None:
+            rc = _rating(ctx, ct, cr, 'calculate_max_cruise_thrust')
+            rl = _rating(ctx, ct, cl, 'calculate_max_climb_thrust')
+            for r, x in ((rc, cr), (rl, cl)):
+                if r[0] == 'undecided':
+                    ctx.undecided('C19-R2', ct, norm(x)[:70], r[1])
+            oksel = rc[0] != 'other' and rl[0] != 'other'
+            if not oksel:
+                why_sel = '; '.join(f'{nm}: {r[1]}' for nm, r in (('in cruise', rc), ('outside cruise', rl)) if r[0] == 'other')
     ctx.ob('C19-R2', ct, f'maximum thrust = {norm(MX)[:70]}', bool(oksel),
            'max cruise thrust in cruise, max climb thrust otherwise' if oksel else
-           'the thrust limit is not selected by the cruise flag between cruise and climb maxima', line=MX.lineno)
-    state = {'altitude': 'altitude', 'v_tas': 'v_tas', 'temperature': 'temperature'}
+           f'the thrust limit is not max cruise thrust (3.7-8) where in_cruise and max climb thrust elsewhere - {why_sel}', line=MX.lineno)
     if oksel:
-        for nm, call in (('cruise', cr), ('climb', cl)):
-            okm = call_name(call).startswith('self.engine_model.')
-            oka, how = _state_args(prog, ct, call, state)
-            ctx.ob('C19-R2', ct, f'max {nm} thrust from calculate_max_{nm}_thrust', okm and oka,
-                   'engine model, this state' if okm and oka else
-                   f'max {nm} thrust is not the engine model\'s rating at this state: {how}', nontrivial=False)
+        for nm, r in (('cruise', rc), ('climb', rl)):
+            ctx.ob('C19-R2', ct, f'max {nm} thrust from calculate_max_{nm}_thrust', r[0] == 'ok',
+                   'engine model, this state' if r[0] == 'ok' else
+                   f'max {nm} thrust is not the engine model\'s rating at this state: {r[1]}', nontrivial=False)
 
     # descent thrust: high-altitude rating above h_p_des (compared in feet)
     dd = _where3(D)
@@ -556,14 +934,18 @@ def rule_thrust(ctx):
                 l, op, r = r, _CMP_FLIP[op], l
             if norm(r) in hp and norm(l) in alt_ft and op in (ast.Gt, ast.LtE):
                 hi, lo = (da, db) if op is ast.Gt else (db, da)
-                okd = _is_call_of(hi, 'calculate_descent_thrust_high') and _is_call_of(lo, 'calculate_descent_thrust_low')
-                why = 'the high and low altitude ratings are on the wrong branches'
-                if okd:
-                    for call in (hi, lo):
-                        oka, how = _state_args(prog, ct, call, state)
-                        okd = okd and oka and call_name(call).startswith('self.engine_model.')
-                        if not oka:
-                            why = f'descent rating evaluated at another state: {how}'
+                rh = _rating(ctx, ct, hi, 'calculate_descent_thrust_high')
+                rw = _rating(ctx, ct, lo, 'calculate_descent_thrust_low')
+                for r, x in ((rh, hi), (rw, lo)):
+                    if r[0] == 'undecided':
+                        ctx.undecided('C19-R2', ct, norm(x)[:70], r[1])
+                okd = rh[0] == 'ok' and rw[0] == 'ok'
+                if rh[0] == 'other' and rw[0] == 'other' and _rating(ctx, ct, lo, 'calculate_descent_thrust_high')[0] == 'ok' \
+                        and _rating(ctx, ct, hi, 'calculate_descent_thrust_low')[0] == 'ok':
+                    why = 'the high and low altitude ratings are on the wrong branches'
+                elif not okd:
+                    why = '; '.join((f'descent rating evaluated at another state: {r[1]}' if r[0] == 'state' else f'{nm}: {r[1]}')
+                                    for nm, r in (('above h_p_des', rh), ('at or below h_p_des', rw)) if r[0] != 'ok')
             elif norm(r) in hp and norm(l) == 'altitude':
                 why = 'the altitude in metres is compared with h_p_des, which is in feet'
             elif norm(r) in hp and norm(l) in alt_ft:
@@ -581,7 +963,7 @@ def rule_fuelflow(ctx):
     prog = ctx.prog
     m = prog.module(MODEL)
     sg = m.func('Bada3FuelBurnModel.calculate_specific_ground_range')
-    fl = Flow(prog, sg)
+    fl = Flow(prog, sg, methods=True, keep=manual_methods())
     R = fl.ret
     if not fl.straight or fl.returns != 1 or R is None or fl.early:
         ctx.undecided('C19-R3', sg, 'specific ground range', 'not a straight-line function with one return')
@@ -1079,9 +1461,43 @@ def rule_state(ctx):
     ctx.floor('C19-R8', n, 30, 'methods of the BADA-3 model classes examined for answers from instance state')
 
 
+def _live_block(block):
+    """(the `return` statements of a block that can be reached, whether the block always leaves): what follows a return /
+    raise / break / continue in the same block is dead, and so is the arm of an `if` on literals that is not taken"""
+    out = []
+    for st in block:
+        if isinstance(st, ast.Return):
+            out.append(st)
+            return out, True
+        if isinstance(st, (ast.Raise, ast.Break, ast.Continue)):
+            return out, True
+        if isinstance(st, (ast.FunctionDef, ast.AsyncFunctionDef, ast.ClassDef)):
+            continue
+        if isinstance(st, ast.If):
+            t = const_truth(st.test)
+            arms = [st.body, st.orelse] if t is None else [st.body if t else st.orelse]
+            res = [_live_block(a) for a in arms]
+            for r, _ in res:
+                out += r
+            if all(done for _, done in res) and (t is not None or st.orelse):
+                return out, True
+            continue
+        for f in ('body', 'orelse', 'finalbody'):
+            out += _live_block(getattr(st, f, None) or [])[0]
+        for h in getattr(st, 'handlers', None) or []:
+            out += _live_block(h.body)[0]
+        for c in getattr(st, 'cases', None) or []:
+            out += _live_block(c.body)[0]
+    return out, False
+
+
+def _live_returns(block):
+    return _live_block(block)[0]
+
+
 def computed_return(fi, classes):
     """the one `return` of a method that hands out a value computed in this call (stored answers are R8's business)"""
-    rets = [n for n in walk_no_nested(fi.node) if isinstance(n, ast.Return) and n.value is not None]
+    rets = [n for n in _live_returns(fi.node.body) if n.value is not None]
     if len(rets) > 1 and fi.cls is not None:
         st = _runtime_state(fi.cls, classes)
         memo = {id(r) for r, _a, _k in stored_answers(fi.node, st)} if st else set()
@@ -1512,6 +1928,475 @@ def rule_engine_dispatch(ctx):
     ctx.floor('C19-R6/dispatch', n, len(ENGINE_MODELS), 'engine types followed through create_engine_model')
 
 
+# --- R9: the entry points evaluate the specific ground range at the flight state they were given -------------
+#
+# A small abstract interpretation of each entry point over its CFG.  Values: a parameter of the entry point as received
+# ('P'), a tuple / record with its components ('T': displays, NamedTuple / dataclass constructors, _replace), a mapping
+# with literal keys ('D'), the result of a specific-ground-range evaluation with the values bound to its parameters ('S'),
+# the result of some other call, identified by the call sites it can come from ('C'), any other expression identified by
+# its text and the values of its names ('X'), a function ('F'), unknown ('?').  Assignments, unpacking, field reads,
+# * / ** expansion and calls of the package's own helpers (opened with the arguments bound) move values; a join keeps what
+# both sides agree on.  Nothing is executed.
+
+_TOP = ('?',)
+_COERCIONS = ('np.asarray', 'np.asanyarray', 'np.array', 'np.atleast_1d', 'np.ascontiguousarray', 'np.copy',
+              'numpy.asarray', 'numpy.array', 'numpy.copy')
+SGR_ROLES = ('temperature', 'altitude', 'v_tas', 'rocd', 'acceleration', 'in_cruise', 'groundspeed')
+_ROLE_WHAT = {'v_tas': 'true airspeed', 'groundspeed': 'ground speed', 'rocd': 'rate of climb / descent',
+              'in_cruise': 'cruise flag'}
+
+
+def _vjoin(a, b):
+    if a == b:
+        return a
+    if a[0] == b[0] == 'C':
+        return ('C', a[1] | b[1])
+    if a[0] == b[0] == 'T' and a[1] == b[1] and a[2] == b[2] and len(a[3]) == len(b[3]):
+        return ('T', a[1], a[2], tuple(_vjoin(x, y) for x, y in zip(a[3], b[3])))
+    if a[0] == b[0] and a[0] in ('D', 'S') and [k for k, _ in a[1]] == [k for k, _ in b[1]]:
+        return (a[0], tuple((k, _vjoin(x, y)) for (k, x), (_, y) in zip(a[1], b[1])))
+    return _TOP
+
+
+def _envjoin(a, b):
+    if a is b:
+        return a
+    return {k: (_vjoin(a[k], b[k]) if k in a and k in b else _TOP) for k in set(a) | set(b)}
+
+
+def _record_fields(prog, module, e):
+    """field names of the record class `e` names (NamedTuple, or a dataclass without __init__), else None"""
+    k = prog.resolve_class_expr(module, e)
+    if k is None:
+        return None
+    is_nt = any(b.split('.')[-1] == 'NamedTuple' for b in k.base_exprs)
+    is_dc = any(norm(d).split('(')[0].split('.')[-1] == 'dataclass' for d in k.node.decorator_list)
+    if not (is_nt or is_dc) or k.find_method('__init__') is not None or k.find_method('__new__') is not None:
+        return None
+    out = []
+    for c in reversed(k.mro()):
+        for st in c.node.body:
+            if isinstance(st, ast.AnnAssign) and isinstance(st.target, ast.Name) and 'ClassVar' not in norm(st.annotation):
+                out = [x for x in out if x[0] != st.target.id] + [(st.target.id, st.value)]
+    return k.name, out
+
+
+class StateFlow:
+    """abstract interpretation of one function (see above); `anchors` maps FunctionInfo -> 'sgr' | 'update'"""
+
+    def __init__(self, prog, anchors, records):
+        self.prog, self.anchors, self.records = prog, anchors, records
+        self.recording = False
+        self.stack = []           # call sites (line numbers) of the helpers being opened
+        self._active = []         # (call, callee) of the helpers being opened
+        self._rets = []           # per function being run: the values it returns
+
+    # -- expressions
+    def _bind(self, fi, c, fn, drop_self, env):
+        """parameter -> value for call `c` of `fn`, with * of tuples and ** of mappings expanded"""
+        pos, kw = [], {}
+        for a in c.args:
+            if isinstance(a, ast.Starred):
+                v = self.ev(fi, a.value, env)
+                if v[0] != 'T':
+                    return None
+                pos += list(v[3])
+            else:
+                pos.append(self.ev(fi, a, env))
+        for k in c.keywords:
+            v = self.ev(fi, k.value, env)
+            if k.arg is None:
+                if v[0] != 'D':
+                    return None
+                for kk, vv in v[1]:
+                    if kk in kw:
+                        return None
+                    kw[kk] = vv
+            else:
+                if k.arg in kw:
+                    return None
+                kw[k.arg] = v
+        ps, kwonly = _fn_params(fn, drop_self)
+        if len(pos) > len(ps):
+            return None
+        out = dict(zip(ps, pos))
+        for k, v in kw.items():
+            if k in out or k not in ps + kwonly:
+                return None
+            out[k] = v
+        a = fn.args
+        allpos = [x.arg for x in a.posonlyargs + a.args]
+        for name, d in zip(allpos[len(allpos) - len(a.defaults):], a.defaults):
+            out.setdefault(name, ('X', norm(d), ()))
+        for x, d in zip(a.kwonlyargs, a.kw_defaults):
+            if d is not None:
+                out.setdefault(x.arg, ('X', norm(d), ()))
+        if any(p_ not in out for p_ in ps + kwonly):
+            return None
+        return out
+
+    def _opaque(self, fi, e, env):
+        names = sorted({x.id for x in ast.walk(e) if isinstance(x, ast.Name) and x.id in env})
+        if any(isinstance(x, (ast.Call, ast.Await, ast.Yield, ast.YieldFrom)) for x in ast.walk(e)):
+            for x in ast.walk(e):
+                if isinstance(x, ast.Call):
+                    self.ev(fi, x, env)          # for the calls it contains (recorded when recording)
+            return ('C', frozenset([id(e)]))
+        return ('X', norm(e), tuple((n, env[n]) for n in names))
+
+    def ev(self, fi, e, env):
+        if isinstance(e, ast.Name):
+            if e.id in env:
+                return env[e.id]
+            return ('X', e.id, ())
+        if isinstance(e, ast.Constant):
+            return ('X', repr(e.value), ())
+        if isinstance(e, (ast.Tuple, ast.List)):
+            vals = []
+            for x in e.elts:
+                if isinstance(x, ast.Starred):
+                    v = self.ev(fi, x.value, env)
+                    if v[0] != 'T':
+                        return _TOP
+                    vals += list(v[3])
+                else:
+                    vals.append(self.ev(fi, x, env))
+            return ('T', None, None, tuple(vals))
+        if isinstance(e, ast.Dict):
+            out = {}
+            for k, v in zip(e.keys, e.values):
+                if k is None:
+                    d = self.ev(fi, v, env)
+                    if d[0] != 'D':
+                        return _TOP
+                    out.update(dict(d[1]))
+                elif isinstance(k, ast.Constant) and isinstance(k.value, str):
+                    out[k.value] = self.ev(fi, v, env)
+                else:
+                    return _TOP
+            return ('D', tuple(out.items()))
+        if isinstance(e, ast.NamedExpr):
+            v = self.ev(fi, e.value, env)
+            env[e.target.id] = v
+            return v
+        if isinstance(e, ast.IfExp):
+            self.ev(fi, e.test, env)
+            return _vjoin(self.ev(fi, e.body, env), self.ev(fi, e.orelse, env))
+        if isinstance(e, ast.Attribute):
+            if isinstance(e.value, ast.Name) and e.value.id in ('self', 'cls') and fi.cls is not None:
+                f = fi.cls.find_method(e.attr)
+                if f is not None:
+                    return ('F', f)
+            b = self.ev(fi, e.value, env)
+            if b[0] == 'T' and b[2] is not None and e.attr in b[2]:
+                return b[3][b[2].index(e.attr)]
+            if b[0] in ('T', 'D', 'S', '?'):
+                return _TOP
+            return self._opaque(fi, e, env)
+        if isinstance(e, ast.Subscript):
+            b = self.ev(fi, e.value, env)
+            k = e.slice.value if isinstance(e.slice, ast.Constant) else None
+            if isinstance(e.slice, ast.UnaryOp) and isinstance(e.slice.op, ast.USub) and isinstance(e.slice.operand, ast.Constant) \
+                    and isinstance(e.slice.operand.value, int):
+                k = -e.slice.operand.value
+            if b[0] == 'T' and isinstance(k, int) and not isinstance(k, bool) and -len(b[3]) <= k < len(b[3]):
+                return b[3][k]
+            if b[0] == 'D' and isinstance(k, str) and k in dict(b[1]):
+                return dict(b[1])[k]
+            if b[0] in ('T', 'D', 'S', '?'):
+                return _TOP
+            return self._opaque(fi, e, env)
+        if isinstance(e, ast.Call):
+            return self._call(fi, e, env)
+        return self._opaque(fi, e, env)
+
+    def _call(self, fi, c, env):
+        from ..resolve import resolve_call
+        f = c.func
+        cn = call_name(c)
+        # shape-preserving coercions hand on the value
+        if cn in _COERCIONS and len(c.args) == 1 and not isinstance(c.args[0], ast.Starred):
+            v = self.ev(fi, c.args[0], env)
+            if v[0] in ('P', 'C', 'S'):
+                return v
+        if isinstance(f, ast.Attribute) and f.attr == 'copy' and not c.args and not c.keywords:
+            v = self.ev(fi, f.value, env)
+            if v[0] in ('P', 'C', 'S', 'T', 'D'):
+                return v
+        # records and mappings
+        rf = _record_fields(self.prog, fi.module, f) if not (isinstance(f, ast.Name) and f.id in env) else None
+        if rf is not None:
+            name, fields = rf
+            fake = ast.arguments(posonlyargs=[], args=[ast.arg(n) for n, _ in fields], kwonlyargs=[], kw_defaults=[],
+                                 defaults=[d for _, d in fields[next((i for i, (_, d) in enumerate(fields) if d is not None), len(fields)):]])
+            if any(d is None for _, d in fields[next((i for i, (_, d) in enumerate(fields) if d is not None), len(fields)):]):
+                return _TOP
+            holder = ast.FunctionDef(name=name, args=fake, body=[], decorator_list=[])
+            b = self._bind(fi, c, holder, False, env)
+            if b is None:
+                return _TOP
+            names = tuple(n for n, _ in fields)
+            return ('T', name, names, tuple(b[n] for n in names))
+        if isinstance(f, ast.Name) and f.id == 'dict' and f.id not in env and not c.args:
+            out = {}
+            for k in c.keywords:
+                v = self.ev(fi, k.value, env)
+                if k.arg is None:
+                    if v[0] != 'D':
+                        return _TOP
+                    out.update(dict(v[1]))
+                else:
+                    out[k.arg] = v
+            return ('D', tuple(out.items()))
+        if isinstance(f, ast.Attribute) and f.attr in ('_replace', '_asdict', '_make'):
+            b = self.ev(fi, f.value, env)
+            if b[0] == 'T' and b[2] is not None and f.attr == '_replace' and not c.args and all(k.arg in b[2] for k in c.keywords):
+                vals = list(b[3])
+                for k in c.keywords:
+                    vals[b[2].index(k.arg)] = self.ev(fi, k.value, env)
+                return ('T', b[1], b[2], tuple(vals))
+            if b[0] == 'T' and b[2] is not None and f.attr == '_asdict' and not c.args and not c.keywords:
+                return ('D', tuple(zip(b[2], b[3])))
+            return _TOP
+        if isinstance(f, ast.Name) and f.id == 'replace' and c.args and f.id not in env:
+            b = self.ev(fi, c.args[0], env)
+            if b[0] == 'T' and b[2] is not None and len(c.args) == 1 and all(k.arg in b[2] for k in c.keywords):
+                vals = list(b[3])
+                for k in c.keywords:
+                    vals[b[2].index(k.arg)] = self.ev(fi, k.value, env)
+                return ('T', b[1], b[2], tuple(vals))
+            return _TOP
+        # the callee
+        callee = None
+        if isinstance(f, ast.Name) and f.id in env:
+            if env[f.id][0] == 'F':
+                callee = env[f.id][1]
+        else:
+            callee = resolve_call(self.prog, fi, c)
+        if callee is not None and callee.cls is not None and callee.name in ('__init__', '__post_init__'):
+            callee = None
+        if callee is None:
+            self._args(fi, c, env)
+            return ('C', frozenset([id(c)]))
+        drop = callee.cls is not None and callee.params[:1] in (['self'], ['cls'])
+        kind = self.anchors.get(callee)
+        b = self._bind(fi, c, callee.node, drop, env)
+        if kind is not None:
+            if self.recording:
+                self.records.append((kind, c, (self.stack[0] if self.stack else c.lineno), b, callee))
+            if kind == 'sgr' and b is not None:
+                return ('S', tuple(sorted(b.items())))
+            return ('C', frozenset([id(c)]))
+        if b is None or len(self.stack) >= 4 or not callee.file.startswith('src/AEIC/BADA/') or callee.node.decorator_list \
+                or '.<locals>.' in callee.qualname or callee in [x[1] for x in self._active]:
+            self._args(fi, c, env)
+            return ('C', frozenset([id(c)]))
+        # a helper of the package: what it returns for these arguments
+        start = dict(b)
+        if drop:
+            start[callee.params[0]] = self.ev(fi, f.value, env) if isinstance(f, ast.Attribute) else ('X', 'self', ())
+        self.stack.append(c.lineno)
+        self._active.append((c, callee))
+        try:
+            r = self.run(callee, start)
+        finally:
+            self.stack.pop()
+            self._active.pop()
+        return r if r is not None else ('C', frozenset([id(c)]))
+
+    def _args(self, fi, c, env):
+        """evaluate the operands of a call that is not followed (for the calls they contain)"""
+        for a in c.args:
+            self.ev(fi, a.value if isinstance(a, ast.Starred) else a, env)
+        for k in c.keywords:
+            self.ev(fi, k.value, env)
+        if isinstance(c.func, ast.Attribute):
+            self.ev(fi, c.func.value, env)
+
+    # -- statements
+    def _store(self, fi, t, v, env):
+        if isinstance(t, ast.Name):
+            env[t.id] = v
+        elif isinstance(t, (ast.Tuple, ast.List)):
+            if v[0] == 'T' and len(v[3]) == len(t.elts) and not any(isinstance(x, ast.Starred) for x in t.elts):
+                for x, y in zip(t.elts, v[3]):
+                    self._store(fi, x, y, env)
+            else:
+                for x in ast.walk(t):
+                    if isinstance(x, ast.Name):
+                        env[x.id] = _TOP
+        elif isinstance(t, ast.Starred):
+            self._store(fi, t.value, _TOP, env)
+        # a store into an element or attribute leaves the object what it was
+
+    def _transfer(self, fi, node, env):
+        env = dict(env)
+        s = node.stmt
+        if node.kind == 'stmt':
+            if isinstance(s, ast.Assign):
+                v = self.ev(fi, s.value, env)
+                for t in s.targets:
+                    self._store(fi, t, v, env)
+            elif isinstance(s, ast.AnnAssign):
+                if s.value is not None:
+                    self._store(fi, s.target, self.ev(fi, s.value, env), env)
+            elif isinstance(s, ast.AugAssign):
+                v = self.ev(fi, s.value, env)
+                if isinstance(s.target, ast.Name):
+                    cur = env.get(s.target.id, _TOP)
+                    env[s.target.id] = ('X', f'{norm(s.target)} {type(s.op).__name__}', (('l', cur), ('r', v)))
+            elif isinstance(s, ast.Expr):
+                self.ev(fi, s.value, env)
+            elif isinstance(s, ast.Return):
+                v = self.ev(fi, s.value, env) if s.value is not None else ('X', 'None', ())
+                self._rets[-1].append(v)
+            elif isinstance(s, (ast.Raise, ast.Assert)):
+                for x in ast.iter_child_nodes(s):
+                    if isinstance(x, ast.expr):
+                        self.ev(fi, x, env)
+            elif isinstance(s, (ast.FunctionDef, ast.AsyncFunctionDef, ast.ClassDef)):
+                env[s.name] = _TOP
+            elif isinstance(s, (ast.Import, ast.ImportFrom)):
+                for al in s.names:
+                    env[(al.asname or al.name).split('.')[0]] = _TOP
+            elif isinstance(s, ast.Delete):
+                for t in s.targets:
+                    self._store(fi, t, _TOP, env)
+        elif node.kind == 'test':
+            self.ev(fi, s.test, env)
+        elif node.kind == 'iter':
+            self.ev(fi, s.iter, env)
+            self._store(fi, s.target, _TOP, env)
+        elif node.kind == 'with':
+            for it in s.items:
+                self.ev(fi, it.context_expr, env)
+                if it.optional_vars is not None:
+                    self._store(fi, it.optional_vars, _TOP, env)
+        elif node.kind == 'match':
+            self.ev(fi, s.subject, env)
+        elif node.kind == 'case':
+            for x in ast.walk(s.pattern):
+                for nm in (getattr(x, 'name', None), getattr(x, 'rest', None)):
+                    if isinstance(nm, str):
+                        env[nm] = _TOP
+            if s.guard is not None:
+                self.ev(fi, s.guard, env)
+        elif node.kind == 'except':
+            if s.name:
+                env[s.name] = _TOP
+        return env
+
+    def run(self, fi, start):
+        """join of the values `fi` returns when entered with `start` (None when it returns nothing that is known)"""
+        g = _cfg(fi.node)
+        was = self.recording
+        self.recording = False
+        self._rets.append([])
+        try:
+            ins, _outs = g.forward(start, lambda n, st: self._transfer(fi, n, st), _envjoin)
+        finally:
+            self._rets.pop()
+        self.recording = was
+        self._rets.append([])
+        try:
+            for n, st in ins.items():
+                self._transfer(fi, g.nodes[n], st)
+            rets = self._rets[-1]
+        finally:
+            self._rets.pop()
+        out = None
+        for v in rets:
+            out = v if out is None else _vjoin(out, v)
+        return out
+
+
+def _value_text(v):
+    if v[0] == 'P':
+        return f'its `{v[1]}`'
+    if v[0] == 'X':
+        return f'`{v[1][:40]}`'
+    if v[0] == 'C':
+        return 'the result of a call'
+    if v[0] == 'S':
+        return 'a specific ground range'
+    if v[0] == 'T':
+        return 'a tuple / record'
+    return 'a value that differs between paths'
+
+
+def rule_entry_state(ctx):
+    """R9: see the module docstring"""
+    prog = ctx.prog
+    m = prog.module(MODEL)
+    b = prog.module(BASE)
+    sgr = m.func('Bada3FuelBurnModel.calculate_specific_ground_range')
+    anchors = {sgr: 'sgr', b.func('BaseFuelBurnModel.update_mass_vector'): 'update',
+               b.func('BaseFuelBurnModel.update_mass_vector_backward'): 'update'}
+    k = m.cls('Bada3FuelBurnModel')
+    for name in ('update_mass_vector', 'update_mass_vector_backward'):
+        f = k.find_method(name)
+        if f is not None:
+            anchors[f] = 'update'
+    entries = [f for f in k.methods.values() if f not in anchors and not f.name.startswith('_')
+               and all(r in f.params for r in SGR_ROLES) and 'segment_distance' in f.params]
+    ctx.floor('C19-R9', len(entries), 4, 'entry points of the fuel-burn iteration (methods that receive the flight state and the segment lengths)')
+    for f in entries:
+        records = []
+        sf = StateFlow(prog, anchors, records)
+        sf.recording = True
+        start = {p_: ('P', p_) for p_ in f.params}
+        start['self'] = ('X', 'self', ())
+        sf.run(f, start)
+        seen = set()
+        nsgr = nupd = 0
+        for kind, call, line, bound, callee in records:
+            if (id(call), line) in seen:
+                continue
+            seen.add((id(call), line))
+            line = int(-(-line // 1))
+            if bound is None:
+                ctx.undecided('C19-R9', f, norm(call)[:60], f'the arguments of {callee.name} cannot be bound to its parameters')
+            if kind == 'sgr':
+                nsgr += 1
+                wrong = {r: bound[r] for r in SGR_ROLES if bound.get(r) != ('P', r)}
+                swapped = {r: v for r, v in wrong.items() if v[0] == 'P' and v[1] != r}
+                if wrong and not swapped:
+                    r, v = next(iter(wrong.items()))
+                    ctx.undecided('C19-R9', f, norm(call)[:60], f'`{r}` of the specific-ground-range evaluation is {_value_text(v)}, '
+                                  f'which cannot be traced to the `{r}` this entry point received')
+                ok = not wrong
+                detail = 'mass, temperature, altitude, v_tas, rocd, acceleration, in_cruise, groundspeed as received'
+                if not ok:
+                    what = ', '.join(f'its `{v[1]}` as {r}' + (f' ({_ROLE_WHAT[r]})' if r in _ROLE_WHAT else '') for r, v in swapped.items())
+                    detail = (f'{f.name} evaluates the specific ground range with {what}: thrust and fuel flow are computed for a flight '
+                              'state other than the one given, so the mass decrease per step is no longer the trapezoid of BADA-3 fuel '
+                              'flow over ground speed for this flight')
+                ctx.ob('C19-R9', f, f'specific ground range at the flight state received (line {line})', ok, detail, line=line)
+                mv = bound.get('mass')
+                if mv is None or mv[0] != 'C':
+                    ctx.undecided('C19-R9', f, norm(call)[:60], f'the mass the specific ground range is evaluated for is {_value_text(mv or _TOP)}, '
+                                  'not a mass vector computed in this function')
+            else:
+                nupd += 1
+                sv, mv, dv = bound.get('specific_ground_range'), bound.get('mass'), bound.get('segment_distance')
+                if sv is None or sv[0] != 'S':
+                    ctx.undecided('C19-R9', f, norm(call)[:60], f'the specific ground range handed to {callee.name} is {_value_text(sv or _TOP)}, '
+                                  'not the result of calculate_specific_ground_range')
+                okm = dict(sv[1]).get('mass') == mv
+                ctx.ob('C19-R9', f, f'{callee.name}: range evaluated for the mass vector being updated (line {line})', okm,
+                       'same mass vector' if okm else
+                       'the mass vector is updated with a specific ground range that was evaluated for another (earlier) mass vector: '
+                       'the iteration no longer feeds the fuel flow of the current mass profile into the trapezoid', line=line, nontrivial=False)
+                if dv != ('P', 'segment_distance'):
+                    if dv is not None and dv[0] == 'P':
+                        ctx.ob('C19-R9', f, f'{callee.name}: integrated over the segment lengths received (line {line})', False,
+                               f'its `{dv[1]}` is passed as the segment lengths of the trapezoid', line=line)
+                    else:
+                        ctx.undecided('C19-R9', f, norm(call)[:60], f'the segment lengths handed to {callee.name} are {_value_text(dv or _TOP)}')
+        ctx.floor(f'C19-R9/{f.name[-24:]}/sgr', nsgr, 1, 'evaluations of the specific ground range')
+        ctx.floor(f'C19-R9/{f.name[-24:]}/update', nupd, 1, 'mass-vector updates')
+
+
 def rule_assign_all(ctx):
     """R7: the coefficients the engine model reads are the ones that were assigned: assign_parameters_fromdict stores
     every entry of the dictionary, whatever its value (0.0 is a legitimate coefficient)."""
@@ -1547,6 +2432,7 @@ def run(ctx):
     rule_update(ctx)
     rule_mtow(ctx)
     rule_state(ctx)
+    rule_entry_state(ctx)
     rule_equations(ctx)
     ctx.assumptions += ['scipy cumulative_trapezoid implements the trapezoid rule; numpy where/divide semantics',
                         'reference equations transcribed from the BADA 3 user manual (sections 3.2, 3.6, 3.7, 3.9)']
